@@ -465,6 +465,94 @@ pub fn run(ctx: &Ctx) -> i32 {
         }
         let _ = std::fs::remove_dir_all(&base);
     });
+    // ---- odd working directories and process limits
+    let n_odd = ctx.tier.pick(8u64, 120u64);
+    run_workload(ctx, &mut acc, "odd-environments", n_odd, |k, rng, acc| {
+        use std::os::unix::ffi::OsStrExt;
+        let base = scratch_dir("c18odd");
+        let tree = format!("{}/proj/contracts", base);
+        std::fs::create_dir_all(&tree).unwrap();
+        let ents = gen_tree_eligible(rng, &pool, 2, 3, 1);
+        build(&tree, &ents);
+        // what the report must be: the tree analysed from an ordinary fresh directory
+        let clean = scratch_dir("c18clean");
+        let reference = run_solstat(&clean, &["--path", &tree]).ok().and_then(|o| if o.code == Some(0) { o.report } else { None });
+        let _ = std::fs::remove_dir_all(&clean);
+        let reference = match reference {
+            Some(r) => r,
+            None => {
+                acc.cov("odd-environments:reference-run-failed");
+                let _ = std::fs::remove_dir_all(&base);
+                return;
+            }
+        };
+        let stale = b"stale report\n".to_vec();
+        if k % 2 == 0 {
+            // a working directory whose path is not valid UTF-8 (a Latin-1 name) - directly, or as an ancestor
+            let mut cwd = std::path::PathBuf::from(&base);
+            cwd.push(std::ffi::OsStr::from_bytes(b"\xdcbung-\xe9t\xe9"));
+            if k % 4 == 2 {
+                cwd.push("inner");
+            }
+            std::fs::create_dir_all(&cwd).unwrap();
+            std::fs::write(cwd.join("solstat_report.md"), &stale).unwrap();
+            let out = std::process::Command::new(solstat_bin()).args(["--path", &tree]).current_dir(&cwd).stdin(std::process::Stdio::null()).output();
+            acc.eval();
+            acc.cov("odd-environments:working-directory-path-is-not-utf-8");
+            acc.nontrivial_h(hash_str(&format!("odd{}", k)));
+            match out {
+                Ok(o) => {
+                    let now = std::fs::read(cwd.join("solstat_report.md")).ok();
+                    if o.status.code() != Some(0) {
+                        acc.violation("valid-run-failed:cwd=not-utf-8", json!({"exit_code": o.status.code(), "stderr": trunc(&String::from_utf8_lossy(&o.stderr), 300), "tree": to_json(&ents)}));
+                    } else if now.as_ref() != Some(&reference) {
+                        acc.violation("report-not-written-in-cwd", json!({"cwd": "a directory whose name is not valid UTF-8", "report_is_the_stale_one": now.as_ref() == Some(&stale), "tree": to_json(&ents)}));
+                    }
+                }
+                Err(e) => acc.inconclusive(format!("cannot run the binary: {}", e)),
+            }
+        } else {
+            // a low limit on open files (256) and a directory with 300 sub-directories: a walk needs one handle per nesting level
+            let many = format!("{}/proj/wide", base);
+            std::fs::create_dir_all(&many).unwrap();
+            for i in 0..300 {
+                let d = format!("{}/pkg{:03}", many, i);
+                std::fs::create_dir_all(&d).unwrap();
+                if i % 50 == 0 {
+                    std::fs::write(format!("{}/P{}.sol", d, i), rng.pick(&pool.progs).1.as_bytes()).unwrap();
+                }
+            }
+            let clean = scratch_dir("c18clean");
+            let reference_wide = run_solstat(&clean, &["--path", &many]).ok().and_then(|o| if o.code == Some(0) { o.report } else { None });
+            let _ = std::fs::remove_dir_all(&clean);
+            let cwd = format!("{}/proj", base);
+            std::fs::write(format!("{}/solstat_report.md", cwd), &stale).unwrap();
+            let out = std::process::Command::new("sh")
+                .arg("-c")
+                .arg("ulimit -S -n 256 2>/dev/null; exec \"$0\" \"$@\"")
+                .arg(solstat_bin())
+                .args(["--path", &many])
+                .current_dir(&cwd)
+                .stdin(std::process::Stdio::null())
+                .output();
+            acc.eval();
+            acc.cov("odd-environments:256-open-files-300-sub-directories");
+            acc.nontrivial_h(hash_str(&format!("odd{}", k)));
+            match (out, reference_wide) {
+                (Ok(o), Some(refw)) => {
+                    let now = std::fs::read(format!("{}/solstat_report.md", cwd)).ok();
+                    if o.status.code() != Some(0) {
+                        acc.violation("valid-run-failed:open-file-limit-256", json!({"exit_code": o.status.code(), "stderr": trunc(&String::from_utf8_lossy(&o.stderr), 300), "sub_directories": 300}));
+                    } else if now.as_ref() != Some(&refw) {
+                        acc.violation("report-not-replaced(append-or-no-truncate)", json!({"note": "run under a limit of 256 open files", "report_is_the_stale_one": now.as_ref() == Some(&stale)}));
+                    }
+                }
+                (Err(e), _) => acc.inconclusive(format!("cannot run the binary through sh: {}", e)),
+                (_, None) => acc.cov("odd-environments:reference-run-failed"),
+            }
+        }
+        let _ = std::fs::remove_dir_all(&base);
+    });
     if ctx.replay.is_none() {
         for c in ["cwd:outside-tree", "cwd:tree-root", "cwd:subdir-of-tree", "cwd:parent(default ./contracts)", "previous-report:larger-than-new", "previous-report:from-previous-run"] {
             if acc.cov_get(c) < 5 {
